@@ -8,7 +8,8 @@ call of a workspace predicate function that decides by control flow (`fn ok(..) 
 the ways through its body that return the tested outcome (PathConds.pred_alts), in the caller's terms.
 
     paths(fn, bb) -> [ (Lit, ...) , ... ]      every way of reaching bb (closures: joined with the ways of reaching
-                                               the call that runs them)
+                                               the call that runs them; inside / behind loops: the simple paths, i.e.
+                                               the decisions before the loop and those of the current iteration)
     holds_on_all(paths, pred)                  pred holds on every consistent path (and there is one)
 
 A conjunction of independent literals entails a clause iff it contains one of the clause's literals, so entailment
@@ -78,7 +79,7 @@ def norm_bool(sl, v, oc, phi_ok=True):
                 v = iv
                 continue
         break
-    return v, oc
+    return fold_len(v), oc
 
 
 class PathConds:
@@ -87,6 +88,7 @@ class PathConds:
         self.sl = sl
         self.limit = limit
         self._cache = {}
+        self._bpaths = {}
         self._ctx = {}
         self._expanding = []
 
@@ -114,6 +116,10 @@ class PathConds:
                 if ds:
                     d, at = ds[-1], i + 1
                     break
+            if d is not None and any(self.is_header(fn, b) for b in path[at:]) and any(fn.in_loop(x[1]) for x in defs if x is not d):
+                # a loop was entered after that assignment and the local is also assigned inside a loop: loop-carried,
+                # the assignment on the (simple) path need not be the one that is current
+                return sl.operand(fn, op)
         if d is None:
             return sl.operand(fn, op)
         if d[0] == 'stmt':
@@ -124,6 +130,10 @@ class PathConds:
         if d[0] == 'call':
             return sl._call_value(fn, d[3], set(), 0)
         return sl.operand(fn, op)
+
+    def is_header(self, fn, b):
+        """b is the target of a back edge (it dominates one of its predecessors)"""
+        return any(fn.dominates(b, p) for p in fn.preds()[b] if p in fn.reachable(0))
 
     def edge_literal(self, fn, b, s, path):
         """decision taken on the edge b->s: Lit | None (no decision) | False (edge infeasible on this path)"""
@@ -154,16 +164,7 @@ class PathConds:
                 oc = False
             else:
                 return None
-            v2, oc2 = norm_bool(self.sl, val, oc, phi_ok=False)
-            if v2[0] == 'call' and v2[1] in self.prog.fns:
-                # a predicate function deciding by control flow: the ways through its body that return this outcome
-                alts = self.pred_alts(v2, oc2)
-                if alts is not None:
-                    return ('alts', alts) if alts else False
-            val, oc = norm_bool(self.sl, val, oc)
-            if val[0] == 'const' and isinstance(val[1], bool):
-                return None if val[1] == oc else False
-            return Lit('bool', val, oc)
+            return self.bool_literal(val, oc)
         if labels == ['else']:
             return Lit('int', val, ('not', tuple(listed)))
         if 'else' not in labels and len(labels) == 1:
@@ -171,6 +172,20 @@ class PathConds:
                 return None if val[1] == labels[0] else False
             return Lit('int', val, labels[0])
         return None
+
+    def bool_literal(self, val, oc):
+        """the decision `val == oc` of a boolean value: Lit | None (always so) | False (never so) | ('alts', [conjunction..])
+        when val is a call of a workspace predicate that decides by control flow"""
+        v2, oc2 = norm_bool(self.sl, val, oc, phi_ok=False)
+        if v2[0] == 'call' and v2[1] in self.prog.fns:
+            # a predicate function deciding by control flow: the ways through its body that return this outcome
+            alts = self.pred_alts(v2, oc2)
+            if alts is not None:
+                return ('alts', alts) if alts else False
+        val, oc = norm_bool(self.sl, val, oc)
+        if val[0] == 'const' and isinstance(val[1], bool):
+            return None if val[1] == oc else False
+        return Lit('bool', val, oc)
 
     def pred_alts(self, v, oc, depth=0):
         """`helper(args) == oc` for a workspace function returning bool, as the disjunction of the ways through its
@@ -239,19 +254,28 @@ class PathConds:
             back.add(b)
             work.extend(preds[b])
         sub = back & fn.reachable(0)
-        if any(fn.in_loop(b) for b in sub):
-            return None
+        # A region with loops: the simple entry->bb paths (no block twice).  Every execution reaching bb yields one of
+        # them when its cycles are cut out (what remains are the decisions before the loop and those of the *last* pass
+        # through each block, i.e. of the current iteration), and all literals of that path hold at bb: a literal is a
+        # necessary condition, about the values of the iteration in which it was decided.  Loop-carried locals are not
+        # resolved to an assignment on the path (resolve) and do not take part in contradictions (consistent).
         out = []
+        steps = [0]
+        bpaths = self._bpaths[(fn.path, bb)] = []
 
         def go(b, path, lits):
             if b == bb:
                 out.append(tuple(lits))
+                bpaths.append(list(path))
                 if len(out) > self.limit:
                     raise _TooMany()
                 return
+            steps[0] += 1
+            if steps[0] > 200 * self.limit:
+                raise _TooMany()
             seen = []
             for s in fn.succs(b):
-                if s in seen or s not in sub:
+                if s in seen or s not in sub or s in path:
                     continue
                 seen.append(s)
                 lit = self.edge_literal(fn, b, s, path)
@@ -293,19 +317,41 @@ class PathConds:
         parent, cb = creation_site(self.prog, fn)
         res = [()]
         if parent is not None:
-            at, extra = cb, ()
+            at, extras = cb, [()]
             users = [c for c in parent.calls if not c.indirect and any(g is fn for g in self.prog.fn_item_args(c))]
             if len(users) == 1 and parent.dominates(cb, users[0].bb):
                 # the closure value is moved into exactly one call: it cannot run unless that call is reached
                 c = users[0]
                 at = c.bb
                 if c.decl and c.decl.endswith('bool>::then') and len(c.args) == 2:
-                    v, oc = norm_bool(self.sl, self.sl.operand(parent, c.args[0]), True)
-                    if not (v[0] == 'const' and isinstance(v[1], bool)):
-                        extra = (Lit('bool', v, oc),)
-            res = [extra + p for p in self.paths(parent, at)]
+                    # `cond.then(|| ..)`: the closure runs only when cond is true (a private predicate deciding by
+                    # control flow is replaced by the ways through its body that return true, as on a branch); a
+                    # condition computed by control flow (`a && b`) is the assignment that lies on the path
+                    lp = self.local_paths(parent, at)
+                    bps = self._bpaths.get((parent.path, at)) or []
+                    if lp is not None and len(bps) == len(lp) and lp:
+                        pctx = self.context(parent)
+                        if len(pctx) * len(lp) > self.limit:
+                            pctx = [()]
+                        res = []
+                        for lits, bp in zip(lp, bps):
+                            for extra in self._then_ways(self.resolve(parent, c.args[0], bp)):
+                                res.extend(cx + lits + extra for cx in pctx)
+                        self._ctx[fn.path] = res
+                        return res
+                    extras = self._then_ways(self.sl.operand(parent, c.args[0]))
+            res = [p + extra for p in self.paths(parent, at) for extra in extras]
         self._ctx[fn.path] = res
         return res
+
+    def _then_ways(self, cond):
+        """the ways `cond` is true, as conjunctions to append to a path"""
+        lit = self.bool_literal(cond, True)
+        if lit is False:
+            return []
+        if isinstance(lit, tuple):
+            return [tuple(a) for a in lit[1]]
+        return [(lit,)] if lit is not None else [()]
 
     def caller_context(self, fn):
         """a crate-private function only runs from its call sites: the ways of reaching them, with what each site tests
@@ -357,8 +403,11 @@ def _rebind(v, binds):
 
 
 def consistent(path):
+    from .lib.value import _contains_cycle
     seen = {}
     for l in path:
+        if _contains_cycle(l.value):
+            continue    # a loop-carried value denotes different things at different times: no contradiction follows
         if l.kind == 'bool':
             if seen.setdefault(l.key, l.outcome) != l.outcome:
                 return False
@@ -857,3 +906,349 @@ def payloads(sl, v, depth=0):
             if iv is not None and iv != v:
                 return payloads(sl, iv, depth + 1)
     return {('unwrap', v)}
+
+
+# ==== robustness round 3 ==============================================================================================
+
+PARSE_STREAM = "syn::parse::ParseBuffer::<'a>::parse"
+
+
+def _instantiate(ty, links):
+    """type argument `ty` of a call inside a generic private helper, instantiated along the call chain: a bare generic
+    parameter name is bound by matching the helper's declared return / argument types against the types at its call"""
+    import re
+    for l in reversed(links):
+        if ty is None or not re.fullmatch(r'[A-Z]\w*', ty):
+            break
+        h = None
+        for n in (l.call.res, l.call.name, l.call.decl):
+            h = h or (n and l.call.fn.prog.fns.get(n))
+        if h is None:
+            return None
+        pat = re.escape(h.ret or '').replace(re.escape(ty), '(.+)', 1) if re.search(r'\b%s\b' % ty, h.ret or '') else None
+        m = re.fullmatch(pat, l.call.dty or '') if pat else None
+        if m is None:
+            ga = getattr(l.call, 'ga', None) or []
+            if len(ga) == 1:
+                ty = ga[0]
+                continue
+            return None
+        ty = m.group(1)
+    return ty
+
+
+def stream_reads(prog, sl, g):
+    """the tokens a syn Parse impl takes from its input stream on every successful run, in execution order, through
+    private helpers (generic ones instantiated at their call): ([(type read, Eff)], [Eff of reads that happen only on
+    some runs])"""
+    from .lib.effects import Effects, Link
+    E = Effects(prog, sl, vocab={PARSE_STREAM: ('STREAM', 0)})
+    must = [e for e in E.expand(g, 'must') if e.kind == 'STREAM']
+    may = [e for e in E.expand(g, 'may') if e.kind == 'STREAM']
+
+    def key(e):
+        return tuple((l.call.fn.path, l.call.bb) for l in e.chain if isinstance(l, Link)) + ((e.call.fn.path, e.call.bb),)
+    always = {key(e) for e in must}
+    out = []
+    for e in must:
+        ga = getattr(e.call, 'ga', None) or []
+        ty = ga[-1] if ga else None
+        out.append((_instantiate(ty, [l for l in e.chain if isinstance(l, Link)]), e))
+    return out, [e for e in may if key(e) not in always or e.forall is not None]
+
+
+def read_top(e):
+    """the call in the entry function through which read e happens"""
+    return e.chain[0].call if e.chain else e.call
+
+
+def read_result(prog, sl, g, v, e):
+    """v (a value of g) is the success payload of stream read e itself: the call it names is the one that (through
+    private helpers) performs e, on g's own input stream, and what that call returns is e's result, unmodified"""
+    v = strip(v)
+    c = call_of(prog, v)
+    top = read_top(e)
+    if c is None or c is not top or not is_param(e.path, g, 0):
+        return False
+    if not e.chain:
+        return len(v[2]) == 1 and is_param(v[2][0], g, 0)
+    iv = sl.inline_deep(('unwrap', v))
+    if iv[0] != 'unwrap' or iv[1][0] != 'call':
+        return False
+    core = iv[1]
+    return call_of(prog, core) is e.call and len(core[2]) == 1 and is_param(core[2][0], g, 0)
+
+
+def failure_ways(PC, v, depth=0):
+    """the ways an Option / Result valued expression is None / Err, as a disjunction of conjunctions of literals
+    ([] = never, [()] = always); None when that is not decided by the combinators understood here:
+        Some(..)/Ok(..) never, None/Err(..) always;  cond.then(f) / cond.then_some(x): iff cond is false (a private
+        predicate deciding by control flow: the ways through its body that return false);
+        x.ok_or(e) / x.ok_or_else(f) / x.map(f) / x.map_err(f) / x.ok() / x.inspect(..): iff x is"""
+    sl = PC.sl
+    if depth > 8 or not isinstance(v, tuple) or not v:
+        return None
+    if v[0] == 'agg' and v[1] in ('std::option::Option', 'std::result::Result'):
+        return [()] if v[2] in ('None', 'Err') else []
+    if v[0] == 'phi':
+        return None
+    if v[0] != 'call' or not v[2]:
+        return None
+    n, a = v[1], v[2]
+    if n.endswith(('bool>::then', 'bool>::then_some')) or n in ('core::bool::<impl bool>::then', 'core::bool::<impl bool>::then_some'):
+        if len(a) != 2:
+            return None
+        lit = PC.bool_literal(a[0], False)
+        if lit is False:
+            return []
+        if lit is None:
+            return [()]
+        if isinstance(lit, tuple):
+            return [tuple(x) for x in lit[1]]
+        return [(lit,)]
+    passthrough = ('std::option::Option::<T>::ok_or', 'std::option::Option::<T>::ok_or_else', 'std::option::Option::<T>::map',
+                   'std::result::Result::<T, E>::map', 'std::result::Result::<T, E>::map_err', 'std::result::Result::<T, E>::ok',
+                   'std::option::Option::<T>::inspect', 'std::result::Result::<T, E>::inspect', 'std::result::Result::<T, E>::inspect_err')
+    if n in passthrough:
+        return failure_ways(PC, a[0], depth + 1)
+    return None
+
+
+def fold_len(v, depth=0):
+    """v with the length of a fixed-size array replaced by the constant it is: `[x; N].len()`, `[a, b, c].len()` —
+    whatever was stored into the array since (its content does not matter to the length)"""
+    if not isinstance(v, tuple) or not v or depth > 30:
+        return v
+    if v[0] in ('const', 'param', 'fnitem', 'constitem', 'unknown', 'closure_env', 'upvar'):
+        return v
+    if v[0] == 'call' and v[1] == 'core::slice::<impl [T]>::len' and len(v[2]) == 1:
+        a = v[2][0]
+        while a[0] in ('unwrap', 'updated'):
+            a = a[1]
+        if a[0] == 'repeat' and str(a[2]).isdigit():
+            return ('const', int(a[2]))
+        if a[0] == 'array':
+            return ('const', len(a[1]))
+    return tuple(fold_len(x, depth + 1) if isinstance(x, tuple) else x for x in v)
+
+
+# ---- loops that count what they iterate -------------------------------------------------------------------------
+
+class CountingLoop:
+    """`let mut k = 0; for x in <iter> { ..; k += 1 }`: k is assigned nowhere else, never borrowed mutably, and the
+    increment lies on every way round the loop exactly once.  Invariant: at the loop head k is the number of elements
+    taken so far that completed the body; on the exhaustion edge (next() == None) it is the number of elements of
+    <iter>, provided every element's iteration reached the latch — which holds for whatever is reached only through
+    that edge."""
+
+    def __init__(self, fn, loop, k, inc_bb, inc_si):
+        self.fn, self.loop, self.k, self.inc_bb, self.inc_si = fn, loop, k, inc_bb, inc_si
+
+
+def _loops(fn, sl):
+    from .lib.effects import find_loops
+    return find_loops(fn, sl)
+
+
+def _int_const(op):
+    from .lib.mir import const_value
+    k = op_const(op)
+    v = const_value(k) if k is not None else None
+    return v if isinstance(v, int) and not isinstance(v, bool) else None
+
+
+def counting_loops(fn, sl):
+    loops = _loops(fn, sl)
+    out = []
+    for L in loops:
+        if getattr(L, 'exhaust', None) is None:
+            continue
+        if any(L2 is not L and L.header in L2.body and L2.header != L.header for L2 in loops):
+            continue    # nested in another loop: "after the loop" is not one point in time
+        inner = [L2 for L2 in loops if L2.header != L.header and L2.header in L.body]
+        for k in range(fn.argc + 1, len(fn.locals)):
+            ds = fn.whole_defs(k)
+            if len(ds) != 2 or fn.partial_defs(k) or any(d[0] != 'stmt' for d in ds):
+                continue
+            init = [d for d in ds if d[1] not in L.body]
+            step = [d for d in ds if d[1] in L.body]
+            if len(init) != 1 or len(step) != 1:
+                continue
+            d0, d1 = init[0], step[0]
+            if not (d0[3]['r'] == 'use' and _int_const(d0[3]['o']) == 0 and fn.dominates(d0[1], L.header) and not fn.in_loop(d0[1])):
+                continue
+            # k = k + 1 (checked: `tmp = AddWithOverflow(copy k, 1); assert; k = move tmp.0`, unchecked: `k = Add(copy k, 1)`)
+            rv = d1[3]
+            add = None
+            if rv['r'] == 'bin':
+                add = rv
+            elif rv['r'] == 'use':
+                pl = op_place(rv['o'])
+                if pl and len(pl) == 2 and pl[1] == '.0':
+                    td = fn.whole_defs(pl[0])
+                    if len(td) == 1 and td[0][0] == 'stmt' and td[0][3]['r'] == 'bin' and not fn.partial_defs(pl[0]) and td[0][1] in L.body \
+                            and (td[0][1] == d1[1] or fn.dominates(td[0][1], d1[1])):
+                        add = td[0][3]
+            if add is None or add.get('op') not in ('Add', 'AddWithOverflow', 'AddUnchecked'):
+                continue
+            ops = [add['a'], add['b']]
+            if not any(op_place(o) == [k] for o in ops) or not any(_int_const(o) == 1 for o in ops):
+                continue
+            if not all(fn.dominates(d1[1], l) or d1[1] == l for l in L.latches):
+                continue
+            if any(d1[1] in L2.body for L2 in inner):
+                continue
+            if any(u[3] in ('refmut',) for u in fn.uses_of(k)):
+                continue
+            out.append(CountingLoop(fn, L, k, d1[1], d1[2]))
+    return out
+
+
+def _after(fn, L, bb):
+    from .lib.guards import edge_dominates
+    return edge_dominates(fn, L.exhaust[0], L.exhaust[1], bb)
+
+
+def _reads_after(fn, L, op, k, bb, depth=0):
+    """operand `op`, evaluated in block bb, is the value local k has after loop L ran to exhaustion"""
+    pl = op_place(op)
+    if pl is None or len(pl) != 1 or depth > 6:
+        return False
+    if pl[0] == k:
+        return _after(fn, L, bb)
+    ds = fn.whole_defs(pl[0])
+    if len(ds) != 1 or ds[0][0] != 'stmt' or ds[0][3]['r'] != 'use' or fn.partial_defs(pl[0]):
+        return False
+    return _reads_after(fn, L, ds[0][3]['o'], k, ds[0][1], depth + 1)
+
+
+def _array_len(fn, loc):
+    import re
+    m = re.fullmatch(r'\[.*; (\d+)\]', fn.locals[loc].get('ty') or '') if 0 <= loc < len(fn.locals) else None
+    return int(m.group(1)) if m else None
+
+
+def _const_operand(fn, op, depth=0):
+    """integer an operand denotes: a literal, or the length of a fixed-size array local (`arr.len()`)"""
+    n = _int_const(op)
+    if n is not None or depth > 6:
+        return n
+    pl = op_place(op)
+    if pl is None or len(pl) != 1:
+        return None
+    ds = fn.whole_defs(pl[0])
+    if len(ds) != 1 or fn.partial_defs(pl[0]):
+        return None
+    d = ds[0]
+    if d[0] == 'stmt' and d[3]['r'] in ('use', 'cast') and 'o' in d[3]:
+        return _const_operand(fn, d[3]['o'], depth + 1)
+    if d[0] == 'stmt' and d[3]['r'] == 'ref' and len(d[3]['p']) == 1:
+        return ('arr', d[3]['p'][0])
+    if d[0] == 'call' and d[3].is_('core::slice::<impl [T]>::len') and len(d[3].args) == 1:
+        a = _const_operand(fn, d[3].args[0], depth + 1)
+        if isinstance(a, tuple) and a[0] == 'arr':
+            return _array_len(fn, a[1])
+    return None
+
+
+def exact_count(fn, sl, cl, bb):
+    """N when block bb is reached only after the counting loop ran to exhaustion and under `k == N`, tested after
+    the loop: the iterated expression has exactly N elements there"""
+    L = cl.loop
+    if not _after(fn, L, bb):
+        return None
+    for cd in conditions(fn, bb, sl):
+        if cd.kind != 'bool' or not isinstance(cd.outcome, bool) or not _after(fn, L, cd.sw_bb):
+            continue
+        t = fn.blocks[cd.sw_bb]['t']
+        pl = op_place(t.get('o'))
+        if t['t'] != 'switch' or pl is None or len(pl) != 1:
+            continue
+        ds = fn.whole_defs(pl[0])
+        # `k == N` taken as true, or `k != N` taken as false
+        if len(ds) != 1 or ds[0][0] != 'stmt' or ds[0][3]['r'] != 'bin' or fn.partial_defs(pl[0]) \
+                or ds[0][3].get('op') != ('Eq' if cd.outcome else 'Ne'):
+            continue
+        eb = ds[0][1]
+        if not _after(fn, L, eb):
+            continue
+        a, b = ds[0][3]['a'], ds[0][3]['b']
+        for x, y in ((a, b), (b, a)):
+            if _reads_after(fn, L, x, cl.k, eb):
+                n = _const_operand(fn, y)
+                if isinstance(n, int):
+                    return n
+    return None
+
+
+def loop_element(fn, sl, L):
+    """the value bound by `for x in ..` / `while let Some(x) = it.next()`: the payload of the loop's next()"""
+    return ('unwrap', sl._call_value(fn, L.next_call, set(), 0))
+
+
+def split_source(v):
+    """(adapter names, split call) of an iterated expression with `into_iter` / `by_ref` read as transparent"""
+    names, src = pipeline(v)
+    return [n for n in names if n not in ('into_iter', 'by_ref')], src
+
+
+def filled_array_reads(fn, sl, cl, v, bb):
+    """v = A[i] read in block bb, A a fixed-size array local of length N that the counting loop fills: the only element
+    writes are `A[j] = x` with j a copy of the counter taken in the same iteration before the increment, in a block on
+    every way round the loop; bb is reached only with exactly N elements iterated and i < N.  Then slot i holds what
+    iteration i stored (the initial content is never read): the values stored, else None."""
+    if not (isinstance(v, tuple) and v[0] == 'index' and isinstance(v[2], str)):
+        return None
+    import re
+    m = re.fullmatch(r'\[(\d+)\]', v[2])
+    base = v[1]
+    slot = int(m.group(1)) if m else None
+    im = re.fullmatch(r'\[_(\d+)\]', v[2])
+    if im is not None:      # `A[i]` with `i = const n`
+        ds = fn.whole_defs(int(im.group(1)))
+        if len(ds) == 1 and ds[0][0] == 'stmt' and ds[0][3]['r'] == 'use' and not fn.partial_defs(int(im.group(1))):
+            slot = _int_const(ds[0][3]['o'])
+    if slot is None or base[0] != 'updated' or base[1][0] not in ('repeat', 'array'):
+        return None
+    L = cl.loop
+    # which local: the array written by index inside the loop
+    cands = []
+    for loc in range(fn.argc + 1, len(fn.locals)):
+        n = _array_len(fn, loc)
+        pds = fn.partial_defs(loc)
+        if n is None or not pds:
+            continue
+        if canon(sl.local(fn, loc)) == canon(base):
+            cands.append((loc, n, pds))
+    if len(cands) != 1:
+        return None
+    loc, n, pds = cands[0]
+    if not (0 <= slot < n) or exact_count(fn, sl, cl, bb) != n or len(fn.whole_defs(loc)) != 1:
+        return None
+    # the symbolic read does not say when it happens: every indexed read of A must lie behind the loop and `k == N`
+    reads = [u for u in fn.uses_of(loc) if len(u[4]) >= 2 and str(u[4][1]).startswith('[') and u[0] in fn.reachable(0)]
+    if not reads or any(exact_count(fn, sl, cl, u[0]) != n for u in reads):
+        return None
+    if any(u[3] == 'refmut' for u in fn.uses_of(loc)):
+        return None
+    for d in pds:
+        if d[0] != 'stmt' or len(d[4]) != 2 or d[4][0] != loc:
+            return None
+        im = re.fullmatch(r'\[_(\d+)\]', str(d[4][1]))
+        if im is None or d[1] not in L.body:
+            return None
+        j = int(im.group(1))
+        jd = fn.whole_defs(j)
+        if len(jd) != 1 or jd[0][0] != 'stmt' or jd[0][3]['r'] != 'use' or op_place(jd[0][3]['o']) != [cl.k] or fn.partial_defs(j):
+            return None
+        jb, wb = jd[0][1], d[1]
+        # copy of k -> write -> increment, in this order within one iteration, the write on every way round
+        if jb not in L.body or not (jb == wb or fn.dominates(jb, wb)) or (jb == wb and jd[0][2] > d[2]):
+            return None
+        if not (wb == cl.inc_bb or fn.dominates(wb, cl.inc_bb)) or (wb == cl.inc_bb and d[2] > cl.inc_si):
+            return None
+        if jb == cl.inc_bb and jd[0][2] > cl.inc_si:
+            return None
+        if fn.dominates(cl.inc_bb, jb) and cl.inc_bb != jb:
+            return None
+    return [val for _, val in base[2]]
